@@ -348,7 +348,6 @@ fn class_total<const NB: usize>(code: u8, nbits: usize) {
             std::mem::forget(n);
         }
         Err(e) => {
-            kani::cover!(true, "rejected");
             std::mem::forget(e);
         }
     }
